@@ -4,6 +4,8 @@ import (
 	"bytes"
 	"context"
 	"hash/crc32"
+	"io"
+	"math/rand"
 	"strconv"
 	"strings"
 	"time"
@@ -25,10 +27,15 @@ type ScanResult struct {
 // configure (may be nil) sets the public knobs before the first call; onObject (may be nil) is called for every
 // returned object right after Object().  headerFirst selects whether Header() is asked before or after the scan.
 func Scan(data []byte, procs int, headerFirst bool, configure func(*osmpbf.Scanner), onObject func(osm.Object), deadline time.Duration) ScanResult {
+	return ScanFrom(bytes.NewReader(data), procs, headerFirst, configure, onObject, deadline)
+}
+
+// ScanFrom is Scan over an arbitrary io.Reader (see NewReader for the reader behaviours used as layout variants).
+func ScanFrom(rd io.Reader, procs int, headerFirst bool, configure func(*osmpbf.Scanner), onObject func(osm.Object), deadline time.Duration) ScanResult {
 	done := make(chan ScanResult, 1)
 	go func() {
 		var r ScanResult
-		s := osmpbf.New(context.Background(), bytes.NewReader(data), procs)
+		s := osmpbf.New(context.Background(), rd, procs)
 		if configure != nil {
 			configure(s)
 		}
@@ -90,4 +97,59 @@ func ProfileChooser(spec string, seed int64) func(line []byte) []int {
 		fixed = append(fixed, n)
 	}
 	return func([]byte) []int { return fixed }
+}
+
+// ReaderKinds are the io.Reader behaviours a file is delivered through.  They are a layout parameter like the blob
+// encoding: the bytes are the same, only the sizes of the pieces handed out by Read differ.
+//
+//	bytes    bytes.Reader: every Read is satisfied completely
+//	onebyte  one byte per Read (iotest.OneByteReader behaviour)
+//	chunk    seeded chunk sizes, 1..7 bytes mixed with large pieces, so that read boundaries fall inside size
+//	         prefixes, BlobHeaders and Blobs (a socket / pipe / decompressor)
+var ReaderKinds = []string{"bytes", "onebyte", "chunk"}
+
+// ReaderKindFor picks the reader behaviour of a run as a function of the case text, the seed and the run parameters only.
+func ReaderKindFor(line []byte, seed int64, profile, procs int) string {
+	return ReaderKinds[(int64(crc32.ChecksumIEEE(line)>>3)+seed+int64(profile)+int64(procs))%int64(len(ReaderKinds))]
+}
+
+// NewReader delivers data with the given behaviour.
+func NewReader(kind string, data []byte, seed int64) io.Reader {
+	switch kind {
+	case "onebyte":
+		return &chunkReader{data: data, next: func() int { return 1 }}
+	case "chunk":
+		rng := rand.New(rand.NewSource(seed*1000003 + int64(len(data))))
+		return &chunkReader{data: data, next: func() int {
+			if rng.Intn(10) < 7 {
+				return 1 + rng.Intn(7)
+			}
+			return 64 + rng.Intn(8192)
+		}}
+	}
+	return bytes.NewReader(data)
+}
+
+type chunkReader struct {
+	data []byte
+	next func() int
+}
+
+func (c *chunkReader) Read(p []byte) (int, error) {
+	if len(c.data) == 0 {
+		return 0, io.EOF
+	}
+	if len(p) == 0 {
+		return 0, nil
+	}
+	n := c.next()
+	if n > len(p) {
+		n = len(p)
+	}
+	if n > len(c.data) {
+		n = len(c.data)
+	}
+	copy(p, c.data[:n])
+	c.data = c.data[n:]
+	return n, nil
 }
